@@ -3,6 +3,7 @@ package c03
 import (
 	"fmt"
 	"math"
+	"strings"
 	"testing"
 
 	"gonum.org/v1/gonum/blas/blas64"
@@ -13,6 +14,16 @@ import (
 )
 
 const iSentinel = -7777777
+
+// emptyAFault re-keys the known runtime fault of the GSVD routines on an empty A
+// (m == 0): Dggsvp3 evaluates a[n-l:] and Dtgsja a[n-l+j:] on a zero-length
+// slice.
+func emptyAFault(f *vk.Failure, m int) *vk.Failure {
+	if f != nil && f.Key == "valid-call-panics" && m == 0 && strings.Contains(f.Msg, "slice bounds out of range") {
+		return vk.Failf("empty-a-runtime-fault", "%s", f.Msg)
+	}
+	return f
+}
 
 // genPair builds the m×n and p×n inputs of the GSVD routines.
 // cls: 0 Gaussian, 1 common rank deficiency ([A;B] = G*W), 2 A low rank, 3 B low
@@ -144,9 +155,34 @@ func gsvdResiduals(name string, a0, b0, u, v, q, zr mat, haveU, haveV, haveQ boo
 	return nil
 }
 
+// rankDefBranch re-keys failures that come from the "n-l > k" branch of Dggsvp3
+// (the block [A11 A12] has rank k < n-l and is compressed by an RQ factorization),
+// which has known defects: Q is updated with Dorm2r instead of Dormr2 (wrong Q, or
+// a panic "insufficient length of a"), and the clean-up loop writes a[j] = 0
+// instead of r[j] = 0 (A12 keeps reflector data below its diagonal and leading
+// entries of the first row of A are destroyed). kl < 0 means "outputs unknown".
+func rankDefBranch(f *vk.Failure, n, k, l int, wantq bool) *vk.Failure {
+	if f == nil {
+		return nil
+	}
+	if k >= 1 && n-l > k {
+		return vk.Failf("rank-deficient-a11-branch", "[%s] %s", f.Key, f.Msg)
+	}
+	if k < 0 && wantq && f.Key == "valid-call-panics" && strings.Contains(f.Msg, "insufficient length of a") {
+		return vk.Failf("rank-deficient-a11-branch", "[%s] %s", f.Key, f.Msg)
+	}
+	return f
+}
+
 // fields: J[0..2] jobU/jobV/jobQ (0 none, 1 compute), M, N, P, Pad[0..4] (lda,
 // ldb, ldu, ldv, ldq), LW (query or query+7), Cls, Wrap
 func checkGgsvd3(c kase) *vk.Failure {
+	k, l := -1, -1
+	f := checkGgsvd3Inner(c, &k, &l)
+	return rankDefBranch(f, c.N, k, l, c.J[2] == 1)
+}
+
+func checkGgsvd3Inner(c kase, kOut, lOut *int) *vk.Failure {
 	m, n, p := c.M, c.N, c.P
 	rng := c.rng(13)
 	a0, b0 := genPair(c.Cls, m, p, n, rng)
@@ -187,8 +223,9 @@ func checkGgsvd3(c kase) *vk.Failure {
 	}
 	lwork, query, f := withWork(cc, rng, 1, call, a, b, u, v, q, alpha, beta)
 	if f != nil {
-		return f
+		return emptyAFault(f, m)
 	}
+	*kOut, *lOut = k, l
 	name := fmt.Sprintf("Dggsvd3(%c,%c,%c)", jobU, jobV, jobQ)
 	vk.Class("ggsvd3:" + name)
 	vk.Class("ggsvd3:cls=" + pairNames[c.Cls])
@@ -295,6 +332,12 @@ func TestGgsvd3(t *testing.T) {
 
 // fields as checkGgsvd3 (no Wrap)
 func checkGgsvp3(c kase) *vk.Failure {
+	k, l := -1, -1
+	f := checkGgsvp3Inner(c, &k, &l)
+	return rankDefBranch(f, c.N, k, l, c.J[2] == 1)
+}
+
+func checkGgsvp3Inner(c kase, kOut, lOut *int) *vk.Failure {
 	m, n, p := c.M, c.N, c.P
 	rng := c.rng(14)
 	a0, b0 := genPair(c.Cls, m, p, n, rng)
@@ -326,8 +369,9 @@ func checkGgsvp3(c kase) *vk.Failure {
 		k, l = impl.Dggsvp3(jobU, jobV, jobQ, m, p, n, a.data, lda, b.data, ldb, tola, tolb, u.data, ldu, v.data, ldv, q.data, ldq, iwork, tau.data, work, lwork)
 	}, a, b, u, v, q, tau)
 	if f != nil {
-		return f
+		return emptyAFault(f, m)
 	}
+	*kOut, *lOut = k, l
 	name := fmt.Sprintf("Dggsvp3(%c,%c,%c)", jobU, jobV, jobQ)
 	vk.Class("ggsvp3:" + name)
 	vk.Class("ggsvp3:cls=" + pairNames[c.Cls])
@@ -530,7 +574,7 @@ func checkTgsja(c kase) *vk.Failure {
 	if f := runPlain(func() {
 		cycles, ok = impl.Dtgsja(jobU, jobV, jobQ, m, p, n, k, l, a.data, lda, b.data, ldb, tola, tolb, alpha.data, beta.data, u.data, ldu, v.data, ldv, q.data, ldq, work.data)
 	}, a, b, u, v, q, alpha, beta, work); f != nil {
-		return f
+		return emptyAFault(f, m)
 	}
 	name := fmt.Sprintf("Dtgsja(%c,%c,%c)", jobU, jobV, jobQ)
 	vk.Class("tgsja:" + name)
